@@ -1,7 +1,12 @@
 pub mod c01;
+pub mod c02;
 pub mod c03;
 pub mod c04;
 pub mod c05;
+pub mod c09;
+pub mod c10;
+pub mod c13;
+pub mod c14;
 pub mod c19;
 
 use crate::rt::{Args, Outcome, Report};
@@ -10,9 +15,14 @@ use serde_json::Value;
 pub fn run(args: &Args, rep: &mut Report) -> Result<(), String> {
 	match args.prop.as_str() {
 		"C01" => c01::run(args, rep),
+		"C02" => c02::run(args, rep),
 		"C03" => c03::run(args, rep),
 		"C04" => c04::run(args, rep),
 		"C05" => c05::run(args, rep),
+		"C09" => c09::run(args, rep),
+		"C10" => c10::run(args, rep),
+		"C13" => c13::run(args, rep),
+		"C14" => c14::run(args, rep),
 		"C19" => c19::run(args, rep),
 		p => return Err(format!("unknown property {}", p)),
 	}
@@ -22,9 +32,14 @@ pub fn run(args: &Args, rep: &mut Report) -> Result<(), String> {
 pub fn replay(args: &Args, part: &str, case: &Value) -> Result<Outcome, String> {
 	match args.prop.as_str() {
 		"C01" => c01::replay(args, part, case),
+		"C02" => c02::replay(args, part, case),
 		"C03" => c03::replay(args, part, case),
 		"C04" => c04::replay(args, part, case),
 		"C05" => c05::replay(args, part, case),
+		"C09" => c09::replay(args, part, case),
+		"C10" => c10::replay(args, part, case),
+		"C13" => c13::replay(args, part, case),
+		"C14" => c14::replay(args, part, case),
 		"C19" => c19::replay(args, part, case),
 		p => Err(format!("unknown property {}", p)),
 	}
